@@ -22,6 +22,10 @@ pub enum MemFront {
     RawMemory,
     MapMemory,
     SetMemory,
+    /// `Map::default()` / `Set::default()`: the empty FST handed out by the
+    /// `Default` impls (only meaningful for the empty sequence)
+    MapDefault,
+    SetDefault,
 }
 
 pub const MEM_FRONTS_SET: [MemFront; 4] = [
@@ -47,6 +51,8 @@ impl MemFront {
             MemFront::RawMemory => "Builder::memory",
             MemFront::MapMemory => "MapBuilder::memory",
             MemFront::SetMemory => "SetBuilder::memory",
+            MemFront::MapDefault => "Map::default",
+            MemFront::SetDefault => "Set::default",
         }
     }
     pub fn from_name(s: &str) -> Option<MemFront> {
@@ -58,6 +64,8 @@ impl MemFront {
             MemFront::RawMemory,
             MemFront::MapMemory,
             MemFront::SetMemory,
+            MemFront::MapDefault,
+            MemFront::SetDefault,
         ] {
             if f.name() == s {
                 return Some(f);
@@ -111,6 +119,16 @@ pub fn mem_build(f: MemFront, items: &[Item], valued: bool) -> Result<Vec<u8>, S
                     b.insert(k).map_err(e)?;
                 }
                 b.into_set().into_fst().into_inner()
+            }
+            MemFront::MapDefault | MemFront::SetDefault => {
+                if !items.is_empty() {
+                    return Err("harness: Default entry point with items".to_string());
+                }
+                if f == MemFront::MapDefault {
+                    fst::Map::<Vec<u8>>::default().as_fst().as_bytes().to_vec()
+                } else {
+                    fst::Set::<Vec<u8>>::default().as_fst().as_bytes().to_vec()
+                }
             }
         })
     }));
@@ -401,6 +419,8 @@ pub fn run_from_iter(case: &FromIterCase) -> FromIterRun {
             MemFront::MapFromIter => fst::Map::from_iter(it)?.as_fst().as_bytes().to_vec(),
             MemFront::FstFromIterSet => raw::Fst::from_iter_set(it.map(|x| x.0))?.into_inner(),
             MemFront::FstFromIterMap => raw::Fst::from_iter_map(it)?.into_inner(),
+            MemFront::MapDefault => fst::Map::<Vec<u8>>::default().as_fst().as_bytes().to_vec(),
+            MemFront::SetDefault => fst::Set::<Vec<u8>>::default().as_fst().as_bytes().to_vec(),
             _ => unreachable!("harness: not a from_iter entry point"),
         })
     }));
@@ -486,4 +506,73 @@ pub fn check_from_iter(case: &FromIterCase, run: &FromIterRun) -> Option<Violati
         }
     }
     None
+}
+
+
+// --------------------------------------------- C15: many builders in a row
+
+/// The same sequence built twice in one thread with `between` other builder
+/// objects created (and finished empty) in between. "Across repeated runs":
+/// what a builder emits must not depend on how many builders the process has
+/// created before it — counters that wrap at 2^8 or 2^16 objects included.
+#[derive(Clone, Debug, PartialEq, Eq)]
+pub struct EpochCase {
+    pub items: Vec<Item>,
+    pub valued: bool,
+    pub between: u64,
+}
+
+pub struct EpochRun {
+    pub violation: Option<Violation>,
+    pub digest: u64,
+}
+
+pub fn run_epoch(case: &EpochCase) -> EpochRun {
+    let front = if case.valued { MemFront::MapMemory } else { MemFront::SetMemory };
+    let r = catch_unwind(AssertUnwindSafe(|| -> Option<Violation> {
+        let v = |o: &str, s: String| Some(Violation { oracle: o.to_string(), observed: s });
+        let a = match mem_build(front, &case.items, case.valued) {
+            Ok(a) => a,
+            Err(e) => return v("C15.task_failed", format!("first build: {}", e)),
+        };
+        for i in 0..case.between {
+            // builder objects that come and go without compiling a node
+            let ok = match i % 3 {
+                0 => raw::Builder::memory().into_inner().is_ok(),
+                1 => fst::MapBuilder::memory().into_inner().is_ok(),
+                _ => fst::SetBuilder::memory().into_inner().is_ok(),
+            };
+            if !ok {
+                return v("C15.task_failed", format!("empty build {} failed", i));
+            }
+        }
+        let b = match mem_build(front, &case.items, case.valued) {
+            Ok(b) => b,
+            Err(e) => return v("C15.task_failed", format!("second build: {}", e)),
+        };
+        if a != b {
+            let n = std::cmp::min(a.len(), b.len());
+            let p = (0..n).find(|&x| a[x] != b[x]).unwrap_or(n);
+            return v(
+                "C15.bytes_depend_on_earlier_builders",
+                format!(
+                    "the same {} entries built before and after {} other (empty) builders in the same thread: {} vs {} bytes, first difference at {}",
+                    case.items.len(),
+                    case.between,
+                    a.len(),
+                    b.len(),
+                    p
+                ),
+            );
+        }
+        None
+    }));
+    let violation = match r {
+        Ok(v) => v,
+        Err(p) => Some(Violation { oracle: "C15.panic".into(), observed: panic_msg(p) }),
+    };
+    let mut d = Digest::new();
+    d.u64(case.between);
+    d.u64(violation.is_some() as u64);
+    EpochRun { violation, digest: d.finish() }
 }
